@@ -833,10 +833,10 @@ func (g *gen) corpus() []core.In[Input] {
 		mk(map[string]any{"configVersion": "v1", "kubernetes": []any{pod, map[string]any{"kind": "ConfigMap"}},
 			"schedule": []any{map[string]any{"crontab": "* * * * *", "includeSnapshotsFrom": []any{"kubernetes"}}}}, true, "ambiguous-include (two default names)"),
 		mk(map[string]any{"configVersion": "v2", "onStartup": 1}, true, "bad-version"),
-		// F19: a zero step in a crontab field sends robfig/cron.v2 into an endless loop (found by the raw bit-flip stream)
-		g.f19(map[string]any{"configVersion": "v1", "schedule": []any{map[string]any{"crontab": "*/0 * * * *"}}}, true, "*/0 * * * *"),
-		g.f19(map[string]any{"schedule": []any{map[string]any{"crontab": "* * * * */0"}}}, false, "* * * * */0"),
-		g.f19(map[string]any{"configVersion": "v1", "schedule": []any{map[string]any{"crontab": "*/5 * * * *"}, map[string]any{"crontab": "0 1-5/00 * * * *"}}}, true, "0 1-5/00 * * * *"),
+		// F22 (repaired): a zero step in a crontab field sent robfig/cron.v2 into an endless loop, LoadAndValidate never returned (found by the raw bit-flip stream)
+		g.f22(map[string]any{"configVersion": "v1", "schedule": []any{map[string]any{"crontab": "*/0 * * * *"}}}, true, "*/0 * * * *"),
+		g.f22(map[string]any{"schedule": []any{map[string]any{"crontab": "* * * * */0"}}}, false, "* * * * */0"),
+		g.f22(map[string]any{"configVersion": "v1", "schedule": []any{map[string]any{"crontab": "*/5 * * * *"}, map[string]any{"crontab": "0 1-5/00 * * * *"}}}, true, "0 1-5/00 * * * *"),
 		// F18 (repaired): an invalid namespace.labelSelector of a kubernetes binding used to be accepted
 		g.f18(map[string]any{"matchExpressions": []any{map[string]any{"key": "tier", "operator": "In"}}}),
 		g.f18(map[string]any{"matchLabels": map[string]any{"bad key!": "x"}}),
@@ -846,7 +846,7 @@ func (g *gen) corpus() []core.In[Input] {
 	return out
 }
 
-func (g *gen) f19(doc map[string]any, v1 bool, cron string) core.In[Input] {
+func (g *gen) f22(doc map[string]any, v1 bool, cron string) core.In[Input] {
 	in := g.docInput(doc, v1, "bad-crontab (zero step) "+cron)
 	in.BadCron = append(in.BadCron, cron)
 	return core.In[Input]{Input: in, Stream: "corpus"}
